@@ -439,7 +439,9 @@ func unquoteChar(s string, info QuoteInfo) (value rune, multibyte bool, tail str
 			value = v
 			break
 		}
-		if v > utf8.MaxRune {
+		if v < 0 || v > utf8.MaxRune {
+			// v is negative if the eight hex digits of a \U escape
+			// overflowed the 32-bit rune.
 			err = errSyntax
 			return
 		}
